@@ -447,6 +447,31 @@ type streamingResponseWriter struct {
 	wroteHeader bool
 	bodyWriter  *io.PipeWriter
 	bodyReader  *io.PipeReader
+
+	// finalTrailer holds the trailer values collected by Close. They are copied into the
+	// streamed response's Trailer map by the goroutine reading the response body, once it
+	// has seen the end of the body, so that map is never accessed concurrently.
+	finalTrailer http.Header
+}
+
+// streamedResponseBody is the body of a streamed response. The header and trailer maps of
+// the streamed response belong to whoever reads the response; the trailers collected by the
+// writer's Close method are published to the response when the body reaches EOF.
+type streamedResponseBody struct {
+	*io.PipeReader
+	w       *streamingResponseWriter
+	trailer http.Header
+}
+
+func (b *streamedResponseBody) Read(p []byte) (int, error) {
+	n, err := b.PipeReader.Read(p)
+	if err == io.EOF {
+		// The pipe is closed by Close after finalTrailer is set.
+		for k, vs := range b.w.finalTrailer {
+			b.trailer[k] = vs
+		}
+	}
+	return n, err
 }
 
 func (w *streamingResponseWriter) Header() http.Header {
@@ -461,7 +486,11 @@ func (w *streamingResponseWriter) WriteHeader(status int) {
 	w.wroteHeader = true
 
 	// Initialize the response trailers.
+	//
+	// The trailer and header maps handed to the reader of the response must not be touched
+	// by this writer afterwards: the response is serialized concurrently with the handler.
 	w.trailer = make(http.Header)
+	respTrailer := make(http.Header)
 	for _, k := range w.Header().Values("Trailer") {
 		// Initialize trailers with empty slices for any pre-declared values.
 		//
@@ -473,6 +502,7 @@ func (w *streamingResponseWriter) WriteHeader(status int) {
 		// We manually call `CanonicalHeaderKey` to preserve the invariant that
 		// all keys in a `Header` instance must be in their canonical format.
 		w.trailer[http.CanonicalHeaderKey(k)] = []string{}
+		respTrailer[http.CanonicalHeaderKey(k)] = []string{}
 	}
 
 	// Filter out hop-by-hop headers.
@@ -487,7 +517,6 @@ func (w *streamingResponseWriter) WriteHeader(status int) {
 			header.Add(k, v)
 		}
 	}
-	w.header = header
 
 	// Take the protocol version information for the response from the corresponding request.
 	proto := "HTTP/1.1"
@@ -504,9 +533,9 @@ func (w *streamingResponseWriter) WriteHeader(status int) {
 		ProtoMinor: protoMinor,
 		StatusCode: status,
 		Status:     http.StatusText(status),
-		Header:     w.header,
-		Body:       w.bodyReader,
-		Trailer:    w.trailer,
+		Header:     header,
+		Body:       &streamedResponseBody{PipeReader: w.bodyReader, w: w, trailer: respTrailer},
+		Trailer:    respTrailer,
 	}
 	select {
 	case w.respChan <- resp:
@@ -527,12 +556,14 @@ func (w *streamingResponseWriter) Close() error {
 	if !w.wroteHeader {
 		w.WriteHeader(http.StatusOK)
 	}
+	finalTrailer := make(http.Header)
 	for k, _ := range w.trailer {
+		finalTrailer[k] = []string{}
 		for _, v := range w.Header().Values(k) {
 			// The `Values` method does not return a copy, so we manually
 			// add each value one at a time to ensure that subsequent changes
 			// to the header do not affect the trailers map.
-			w.trailer.Add(k, v)
+			finalTrailer.Add(k, v)
 		}
 	}
 	for k, vs := range w.Header() {
@@ -545,9 +576,10 @@ func (w *streamingResponseWriter) Close() error {
 			continue
 		}
 		for _, v := range vs {
-			w.trailer.Add(k, v)
+			finalTrailer.Add(k, v)
 		}
 	}
+	w.finalTrailer = finalTrailer
 	verifhook.Emit("SWClose")
 	return w.bodyWriter.Close()
 }
